@@ -814,6 +814,12 @@ def judge(chk, pid, classify, alllines, nprogs=0, nrandom=0, name=""):
             v.finding = classify(ln, outcome, cl, mv)
             chk.add(v)
     chk.notes["transitions_after_an_earlier_break_not_reported_again"] = consequences
+    # binding canaries: corrupted observations must be rejected by both trace specifications
+    if not name:
+        core.canary(chk, [ln for ln in mlines if ln["hsh"] not in mverdict], lambda c, ls, name: machine(c, ls, name),
+                    corrupt=corrupt_machine_line, what="Trace_LegacyMachine")
+        core.canary(chk, lines, lambda c, ls, name: monitor(c, ls, name), corrupt=lambda ln: corrupt_monitor_line(ln, pid),
+                    what="Trace_Legacy", skip=set(rej))
     # transitions on which the library and Legacy.tla part ways without the property's clauses failing on what was
     # observed are not a verdict on the property: they are counted and shown, the exit code is not affected
     judged_bad = {lines[i - 1]["hsh"] for i in rej}
@@ -823,6 +829,31 @@ def judge(chk, pid, classify, alllines, nprogs=0, nrandom=0, name=""):
         ln = div[0]
         print(f"NOTE property={pid} {len(div)} observed transitions differ from Legacy.tla without breaking a clause of the "
               f"property; first: {json.dumps(ln['witness'])[:300]} diff {json.dumps(mverdict[ln['hsh']]['diff'])[:300]}")
+
+
+def corrupt_machine_line(ln):
+    """the observed post-state with one stored index changed"""
+    out = json.loads(json.dumps({k: v for k, v in ln.items() if k not in STRIP}))
+    for n in sorted(out["post"]):
+        out["post"][n]["pi"] += 1
+        return out
+    return None
+
+
+def corrupt_monitor_line(ln, pid):
+    out = json.loads(json.dumps({k: v for k, v in ln.items() if k not in STRIP}))
+    if pid == "C19":
+        for n in sorted(out["pre"]):
+            if n in out["post"]:
+                out["post"][n]["det"] = not out["post"][n]["det"]
+                return out
+        return None
+    for n in sorted(out["post"]):
+        r = out["post"][n]
+        if not r["det"]:
+            r["cidok"] = False
+            return out
+    return None
 
 
 def twin_nested(S) -> bool:
